@@ -382,3 +382,76 @@ def no_set_order(ctx, rule, rel, floor, what, why):
             ctx.bad(rule, q, 'order of a set becomes the order of %s: %s' % (what, U(node)[:70]), why, {'set_lvalues': lv}, node)
     if ctx.floor(rule, rel, nfn, floor, 'functions in ' + rel) and not bad:
         ctx.ok(rule, rel, 'no sequence of %s takes its order from a set (%d functions)' % (what, nfn))
+
+
+# ---------------------------------------------------------------------------------------------
+def queue_init_modes(ctx, qual):
+    """Which calls in PcfgQueue.__init__ run for every base structure in a NEW session and in a RESTORED one.
+
+    Finds the loops over self.pcfg.initalize_base_structures() (directly or through a local), and for every call in their
+    bodies whose first argument is the loop variable evaluates its path conditions (from the function entry) under the two
+    modes save_config is None / is not None (tests on save_config, or on a local bound once to such a test).
+    Returns {'new': [call names], 'restore': [call names], 'unknown': [condition texts]}."""
+    fn = ctx.fn(qual)
+    mod = ctx.repo.modules[qual.partition('::')[0]]
+    stores = stores_in(fn)
+    ps = params(fn)
+    sc = 'save_config' if 'save_config' in ps else None
+    out = {'new': [], 'restore': [], 'unknown': []}
+    if sc is None:
+        out['unknown'].append('no save_config parameter')
+        return out
+
+    class Unk(Exception):
+        pass
+
+    def ev(t, restoring):
+        if isinstance(t, ast.UnaryOp) and isinstance(t.op, ast.Not):
+            return not ev(t.operand, restoring)
+        if isinstance(t, ast.BoolOp):
+            vs = [ev(v, restoring) for v in t.values]
+            return all(vs) if isinstance(t.op, ast.And) else any(vs)
+        if isinstance(t, ast.Compare) and len(t.ops) == 1 and U(t.left) == sc and const(t.comparators[0]) is None:
+            if isinstance(t.ops[0], (ast.Is, ast.Eq)):
+                return not restoring
+            if isinstance(t.ops[0], (ast.IsNot, ast.NotEq)):
+                return restoring
+        if isinstance(t, ast.Name):
+            if t.id == sc:
+                return restoring
+            defs = [v for s_, v in stores.get(t.id, []) if v is not None]
+            if len(defs) == 1:
+                return ev(defs[0], restoring)
+        raise Unk(U(t))
+    for n in walk_local(fn):
+        if not isinstance(n, ast.For) or not isinstance(n.target, ast.Name):
+            continue
+        it = expand(fn, n.iter, stores)
+        if not (isinstance(it, ast.Call) and call_name(it) == 'self.pcfg.initalize_base_structures'):
+            continue
+        tv = n.target.id
+        if any(isinstance(x, (ast.Break, ast.Return)) for b in n.body for x in ast.walk(b)):
+            out['unknown'].append('loop over the base structures leaves early')
+            continue
+        for c in calls_in(n):
+            args = [U(a) for a in c.args]
+            if not args:
+                continue
+            first = args[0]
+            if call_name(c) == 'heapq.heappush' and len(args) == 2 and args[1] == 'QueueItem(%s)' % tv:
+                name = 'push'
+            elif first == tv and call_name(c) in ('self.insert_queue', 'self.restore_base_item', 'self.pcfg.restore_prob_order'):
+                name = call_name(c)
+            else:
+                continue
+            st = c
+            while st is not None and not isinstance(st, ast.stmt):
+                st = mod.parents.get(id(st))
+            try:
+                conds = path_conditions(mod, st)
+                for restoring in (False, True):
+                    if all(ev(t, restoring) == pol for t, pol in conds):
+                        out['restore' if restoring else 'new'].append(name)
+            except Unk as u:
+                out['unknown'].append(str(u))
+    return out
